@@ -4,7 +4,7 @@
    each host (ok / refuse / hang in connect / hang mid-command), the watchdog, the integer clock.
    Every statement is for every number of targets, every fanout >= 1, every assignment of
    behaviours, every time-out setting and every admitted event sequence. *)
-From PV Require Import Dsh.Sys Dsh.SysFacts Dsh.SysProj Dsh.SysLive.
+From PV Require Import Dsh.Sys Dsh.SysFacts Dsh.SysProj Dsh.SysLive Dsh.SysClock.
 Local Open Scope Z_scope.
 
 (* ---- isolation: whatever the other hosts do, each target gets exactly one command ---- *)
@@ -52,6 +52,37 @@ Theorem C07_deadline : forall (c : cfg) t0 es s i w t, urun c (init c t0) es s -
   nth_error (ws s) i = Some w -> hang_due c i w = Some t -> now s <= t + Z.of_N WDOG_POLL.
 Proof. exact deadline. Qed.
 Print Assumptions C07_deadline.
+
+(* The bound in numbers.  With positive connect and command time-outs, on every run in which time advances only
+   when no thread can take a step (murun: at each tick the watchdog is asleep and every non-environment event is
+   refused), the clock never passes
+        t0 + (2 * targets + 1) * (max (connect time-out, command time-out) + watchdog period)
+   whatever each host does (answers, refuses, hangs in connect, hangs mid-command) and whatever interrupts arrive:
+   every tick is charged to a host that hangs within its deadline, and each worker takes at most two stamps.
+   With C07_never_stuck this is "one unresponsive host cannot stall the run". *)
+Theorem C07_run_time_bounded : forall (c : cfg), 1 <= f c -> 0 < tconn c -> 0 < tcmd c -> forall t0, 0 <= t0 -> forall es s,
+  murun c (init c t0) es s ->
+  now s <= t0 + (2 * Z.of_nat (ntgt c) + 1) * (Z.max (tconn c) (tcmd c) + Z.of_N WDOG_POLL).
+Proof. exact clock_bound. Qed.
+Print Assumptions C07_run_time_bounded.
+
+(* the executable test the trace acceptor applies at every tick of a maximal-progress run is sound for that notion *)
+Theorem C07_blocked_test_sound : forall (c : cfg) s, blockedb c s = true -> ~ can_move c s.
+Proof. exact blockedb_sound. Qed.
+Print Assumptions C07_blocked_test_sound.
+
+(* non-vacuity: a maximal-progress run with ticks exists (same scenario as C07_nonvacuous below: the first of two
+   hosts hangs in connect(); every tick is taken in a state where nothing else can move) and reaches t0 + 4 *)
+Example C07_run_time_nonvacuous :
+  let c := mkcfg 2 2 2 1 false [BHangConn; BOk] in
+  let es := [EWdWake; ELockD; ECreate 0; EUnlockD; EStart 0; ELock1 0; EUnlock1 0; EConnBegin 0;
+             ELockD; ECreate 1; EUnlockD; EStart 1; ELock1 1; EUnlock1 1; EConnBegin 1; EConnOk 1; ELock1 1; EUnlock1 1;
+             ELock1 1; EUnlock1 1; EDestroy 1; ELock0 1; ESignal 1; EUnlock0 1; ELockD; EWaitD;
+             ETick; ETick; EWdWake; ETick; ETick] in
+  exists s, murun c (init c 1000) es s /\ now s = 1004 /\ now s <= 1000 + (2 * 2 + 1) * (Z.max 2 1 + Z.of_N WDOG_POLL).
+Proof.
+  cbv zeta. eexists. split; [apply murunb_murun; vm_compute; reflexivity|]. split; vm_compute; [reflexivity|discriminate].
+Qed.
 
 (* ... and nobody is signalled early: the watchdog selects a slot only when its stamp + timeout
    is strictly in the past on the watchdog's own reading of the clock *)
